@@ -217,10 +217,16 @@ func (s storage) SearchObjects(_ context.Context, c cid.ID, _ []objectcore.Searc
 }
 
 // clients implements the ClientConstructor interfaces: every dial is an effect and is refused.
-type clients struct{ log *Log }
+type clients struct {
+	log    *Log
+	remote *remoteNode
+}
 
 func (c clients) Get(_ context.Context, n netmap.NodeInfo) (clientcore.MultiAddressClient, error) {
 	c.log.Add(KindEffect, "remote.dial", n.PublicKey()[:4])
+	if c.remote != nil && bytes.Equal(n.PublicKey(), c.remote.u.Remote.Pub) {
+		return remoteClient{c.remote}, nil
+	}
 	return nil, errors.New("verif: no network")
 }
 
